@@ -2,16 +2,15 @@ CONSTANTS Procs = {p1, p2}
  MaxKills = 1
  Removes = TRUE
  Caught = {"eof", "trunc", "type"}
- GuardedRemove = FALSE
+ GuardedRemove = TRUE
  Merge = TRUE
  RemovesStale = TRUE
  ChecksFolder = TRUE
- ExistOk = TRUE
+ ExistOk = FALSE
  InitKinds = {"missing", "empty", "partial", "valid", "stale", "junk", "nofolder"}
 SPECIFICATION Spec
 INVARIANT NoFatal
 INVARIANT NeverTrustDamaged
 INVARIANT NeverTrustStale
 INVARIANT MutualExclusion
-
 CHECK_DEADLOCK FALSE
